@@ -86,7 +86,8 @@ class C03(Check):
     id = "C03"
     level = "exploration"
     rule = (
-        "Domain: as C02, every dialect grammar. Oracle (independent tree walk): every non-leaf node's rendered and "
+        "Domain: every fixture of every dialect (<= 1500 chars, seed-independent), the degenerate pinned texts and "
+        "templater fixtures, plus the C02 generators (Hypothesis-chosen fixtures unmutated/mutated, text, templates). Oracle (independent tree walk): every non-leaf node's rendered and "
         "source slices equal (min child start, max child stop); children's rendered starts never precede the previous "
         "child's stop; nodes other than file/unparsable (and their descendants inside an unparsable) do not begin or "
         "end (ignoring zero-width metas) with whitespace/newline/comment; running sum of indent_val over the leaves "
